@@ -33,7 +33,31 @@ fn std_scenario(seed: u64, params: &GenParams, force_async: Option<bool>) -> Sce
     gen_config(&mut cr, &mut sc, force_async);
     sc.activity = gen_activity(&mut cr);
     sc.hash_salt = Rng::stream(seed, "hash_salt").next_u64();
+    twin_candidates(seed, &mut sc.world, 5);
     sc
+}
+
+/// On a fraction of the seeds: several candidates of a package get identical dependencies (builds of one version).
+/// Interchangeable candidates are what the conflict report merges into one line, also inside dependency cycles.
+fn twin_candidates(seed: u64, w: &mut crate::world::World, one_in: usize) {
+    let mut r = Rng::stream(seed, "twins");
+    if !r.chance(1, one_in) {
+        return;
+    }
+    let names: Vec<u32> = w.packages.keys().copied().collect();
+    for n in names {
+        let cands = w.packages[&n].candidates.clone();
+        if cands.len() < 2 || !r.chance(2, 3) {
+            continue;
+        }
+        let base = *r.pick(&cands);
+        let deps = w.solvables[&base].deps.clone();
+        for c in cands {
+            if c != base && r.chance(3, 4) {
+                w.solvables.get_mut(&c).unwrap().deps = deps.clone();
+            }
+        }
+    }
 }
 
 /// On a fraction of the seeds: few root requirements and soft requirements on packages nobody requests.
@@ -259,6 +283,20 @@ fn maybe_rejected_soft_run(seed: u64, sc: &mut Scenario, one_in: usize) {
     for (k, x) in soft.into_iter().enumerate() {
         p.soft.insert(pos + k, x);
     }
+}
+
+/// On a fraction of the seeds: the world is a cyclic conflict (see `gen::cyclic_conflict`).
+fn maybe_cyclic_conflict(seed: u64, sc: &mut Scenario, one_in: usize) -> bool {
+    let mut r = Rng::stream(seed, "cyclic-conflict");
+    if !r.chance(1, one_in) {
+        return false;
+    }
+    let (w, p) = crate::gen::cyclic_conflict(&mut r);
+    sc.world = w;
+    sc.solves.truncate(1);
+    sc.solves[0].problem = p;
+    sc.solves[0].cancel = None;
+    true
 }
 
 /// On a fraction of the seeds: a wide fan-out world (31..60 requirements on distinct packages, packages with more
@@ -767,6 +805,7 @@ impl Property for C03 {
         base.max_root_reqs = 5;
         base.max_root_constraints = 3;
         let mut sc = std_scenario(seed, &swarm(seed, base, tier), None);
+        maybe_cyclic_conflict(seed, &mut sc, 40);
         sc.render = true;
         sc.capture_state = true;
         // a deadline-style provider keeps reporting cancellation while the report is built; the caller swaps the
@@ -879,6 +918,7 @@ impl Property for C04 {
         maybe_rejected_soft_run(seed, &mut sc, 12);
         maybe_wide(seed, &mut sc, 300);
         maybe_chain(seed, &mut sc, 4000);
+        maybe_cyclic_conflict(seed, &mut sc, 40);
         sc.render = true;
         sc.cancel_during_render = r.chance(1, 4);
         sc.rewrap_before_render = r.chance(1, 10);
@@ -1013,6 +1053,7 @@ impl Property for C06 {
         }
         base.max_root_reqs = 5;
         let mut sc = std_scenario(seed, &swarm(seed, base, tier), Some(false));
+        maybe_cyclic_conflict(seed, &mut sc, 40);
         sc.runtime = RuntimeKind::NowOrNever;
         sc.render = true;
         let mut r = Rng::stream(seed, "salts");
@@ -1914,6 +1955,23 @@ impl Property for C13 {
         if maybe_chain(seed, &mut sc, 3000) {
             return vec![sc];
         }
+        // long-lived solver: a short history of small problems repeated hundreds of times on one solver (counters and
+        // scores that are carried from call to call), and on very few seeds more than 2^16 times
+        {
+            let mut lr = Rng::stream(seed, "long-lived");
+            let long = lr.chance(1, 400);
+            let very_long = lr.chance(1, 25_000);
+            if (long || very_long) && sc.world.n_solvables() <= 24 {
+                sc.solves.truncate(1 + lr.below(3));
+                sc.repeat = if very_long { lr.range(65_540, 66_000) as u32 } else { lr.range(150, 2_000) as u32 };
+                sc.runtime = crate::run::RuntimeKind::NowOrNever;
+                sc.yield_mask = 0;
+                sc.reentrant_sort = false;
+                sc.render = false;
+                sc.capture_state = false;
+                return vec![sc];
+            }
+        }
         // cancellation faults
         if seed % 2 == 1 {
             let base_rec = execute(&sc);
@@ -1945,12 +2003,23 @@ impl Property for C13 {
         let rec = execute(sc);
         let mut v = base_verdict(sc, &rec);
         let mut completed = 0;
+        let n_specs = sc.solves.len();
+        if sc.repeat > 1 {
+            *v.probes.entry("long_lived_solver_over_100_calls").or_insert(0) += 1;
+            if sc.repeat > 65_536 {
+                *v.probes.entry("long_lived_solver_over_65536_calls").or_insert(0) += 1;
+            }
+        }
+        // the reference verdict of a problem that recurs in a long history is computed once
+        let mut ref_memo: BTreeMap<usize, Option<bool>> = BTreeMap::new();
         for (i, o) in rec.outcomes.iter().enumerate() {
-            let p = &sc.solves[i].problem;
+            let i_spec = i % n_specs;
+            let p = &sc.solves[i_spec].problem;
             if o.is_crash() {
                 // does a fresh solver crash as well?
                 let mut fresh = sc.clone();
-                fresh.solves = vec![sc.solves[i].clone()];
+                fresh.repeat = 0;
+                fresh.solves = vec![sc.solves[i_spec].clone()];
                 fresh.solves[0].cancel = None;
                 let r0 = execute(&fresh);
                 if r0.outcomes[0].is_crash() {
@@ -1964,13 +2033,14 @@ impl Property for C13 {
             if let Some(got) = o.verdict() {
                 completed += 1;
                 v.evaluated = true;
-                match ref_verdict(&sc.world, p) {
+                match *ref_memo.entry(i_spec).or_insert_with(|| ref_verdict(&sc.world, p)) {
                     None => v.inconclusive = true,
                     Some(want) => {
                         if got != want {
                             // C02 defects that a fresh solver shows too are not C13's business
                             let mut fresh = sc.clone();
-                            fresh.solves = vec![sc.solves[i].clone()];
+                            fresh.repeat = 0;
+                            fresh.solves = vec![sc.solves[i_spec].clone()];
                             let r0 = execute(&fresh);
                             if r0.outcomes[0].verdict() == Some(got) {
                                 v.aborted_other = true;
@@ -1983,7 +2053,8 @@ impl Property for C13 {
                 if let Outcome::Ok(s) = o {
                     if let Some((cat, text)) = validity_errors(&sc.world, p, s).first() {
                         let mut fresh = sc.clone();
-                        fresh.solves = vec![sc.solves[i].clone()];
+                        fresh.repeat = 0;
+                        fresh.solves = vec![sc.solves[i_spec].clone()];
                         let r0 = execute(&fresh);
                         let fresh_bad = matches!(&r0.outcomes[0], Outcome::Ok(s2) if !validity_errors(&sc.world, p, s2).is_empty());
                         if fresh_bad {
@@ -1993,7 +2064,7 @@ impl Property for C13 {
                         }
                     }
                 }
-            } else if sc.solves[i].cancel.is_none() {
+            } else if sc.solves[i_spec].cancel.is_none() {
                 if let Outcome::Cancelled(_) = o {
                     v.violate("reuse-spurious-cancel", format!("solve #{i} returned Cancelled without a cancellation fault"));
                 }
